@@ -50,7 +50,13 @@ fn check(prop: &str, tag: &str, issue: &IssueCase, token: &str, pres: &Presentat
             Out::Panic(loc) => format!("{}|{}|{}|panic|{}", prop, pres.proto.name(), pres.layer.name(), crate::adapter::panic_site(loc)),
             _ => format!("{}|{}|{}|{}|{}", prop, pres.proto.name(), pres.layer.name(), tag, kind),
         };
-        acc.violate(key, format!("{}: {}", tag, why), json!({"issue": issue, "issued_token": token, "presentation": pres, "tag": tag, "expect_accept": expect_accept}));
+        let expectation = if expect_accept == Some(true) { "r.is_ok()" } else { "r.is_err()" };
+        acc.violate(
+            key,
+            format!("{}: {}", tag, why),
+            json!({"issue": issue, "issued_token": token, "presentation": pres, "tag": tag, "expect_accept": expect_accept,
+                   "unit_test": crate::cases::unit_test_for(pres, expectation, tag)}),
+        );
     }
 }
 
